@@ -40,3 +40,15 @@ def run(ctx):
 def replay(ctx, payload):
     print(payload)
     return 0
+
+CLAIM = {'note': 'Partial: the merge induction (shrink_tight) is not proved; tightb on the implementation output is '
+         'a Coq-evaluated test, not a theorem. Trusted: Coq kernel + vm_compute; harness reifiers; '
+         'Model/Tight.v as the formal reading of the prose.',
+ 'ref': '4/C05',
+ 'technique': 'Coq model + partial theorems; vm_compute differential correspondence with the tightness '
+              'predicate evaluated in Coq',
+ 'text': 'Executable Coq reading tightb of the property (Model/Tight.v), proved partial theorems (exact '
+         'classes at leaves; Any is tight only for the empty collection; tightness entails exact-class '
+         'membership for atomic types); the full statement C05_full is kept in Props/C05.v and is decided '
+         "per generated case by vm_compute of tightb on the implementation's own output together with the "
+         'multiset correspondence model = implementation.'}
